@@ -182,3 +182,63 @@ let rec parse_arg c : arg =
       let rec args acc = skip_ws c; if peek c = ')' then (adv c; List.rev acc) else args (parse_arg c :: acc) in
       ACall (f, args [])
   | t -> failwith ("bad arg " ^ t)
+
+(* struct encoding: types and values *)
+let hexw w = if w = "-" then [] else bytes_of_hex w
+let rec parse_ty c : ty =
+  skip_ws c;
+  if peek c = '(' then begin
+    adv c;
+    let tag = word c in
+    match tag with
+    | "P" -> let t = parse_ty c in expect c ')'; TPtr t
+    | "L" -> let t = parse_ty c in expect c ')'; TSlice t
+    | "M" -> let t = parse_ty c in expect c ')'; TMap t
+    | "S" -> skip_ws c; let name = hexw (word c) in
+        let rec fields acc = skip_ws c; if peek c = ')' then (adv c; List.rev acc) else fields (parse_field c :: acc) in
+        TStruct (name, fields [])
+    | t -> failwith ("bad ty " ^ t)
+  end else
+    match word c with
+    | "b" -> TBool | "i" -> TInt | "f" -> TFloat | "s" -> TStr | "A" -> TAny
+    | t -> failwith ("bad ty word " ^ t)
+and parse_field c : field =
+  expect c '(';
+  let _ = word c in
+  skip_ws c; let name = hexw (word c) in
+  skip_ws c; let exported = (word c = "1") in
+  skip_ws c; let has = (word c = "1") in
+  skip_ws c; let tname = hexw (word c) in
+  skip_ws c; let dash = (word c = "1") in
+  skip_ws c; let omit = (word c = "1") in
+  skip_ws c; let str = (word c = "1") in
+  skip_ws c; let emb = (word c = "1") in
+  let t = parse_ty c in
+  expect c ')';
+  Fld (name, exported, { t_has = has; t_name = tname; t_dash = dash; t_omit = omit; t_str = str }, emb, t)
+
+let rec parse_gv c : gv =
+  skip_ws c;
+  if peek c = '(' then begin
+    adv c;
+    let tag = word c in
+    match tag with
+    | "P" -> let v = parse_gv c in expect c ')'; GPtr v
+    | "L" -> let rec items acc = skip_ws c; if peek c = ')' then (adv c; List.rev acc) else items (parse_gv c :: acc) in GSlice (items [])
+    | "S" -> let rec items acc = skip_ws c; if peek c = ')' then (adv c; List.rev acc) else items (parse_gv c :: acc) in GStruct (items [])
+    | "M" -> let rec mems acc = skip_ws c; if peek c = ')' then (adv c; List.rev acc) else begin
+               expect c '('; let k = word c in let v = parse_gv c in expect c ')';
+               mems ((hexw (String.sub k 1 (String.length k - 1)), v) :: acc) end in
+             GMap (mems [])
+    | "A" -> let t = parse_ty c in let v = parse_gv c in expect c ')'; GAny (t, v)
+    | t -> failwith ("bad gv " ^ t)
+  end else begin
+    let w = word c in
+    let rest = String.sub w 1 (String.length w - 1) in
+    match w.[0] with
+    | 'n' -> GNil | 't' -> GBool true | 'f' -> GBool false
+    | 'i' -> GInt (z_of_string rest)
+    | 'd' -> GFloat (bytes_of_string rest)
+    | 's' -> GStr (bytes_of_hex rest)
+    | _ -> failwith ("bad gv token " ^ w)
+  end
